@@ -3,6 +3,7 @@
 use std::collections::HashMap;
 
 mod cluster;
+mod life;
 mod mailbox;
 mod ratelim;
 mod registry;
@@ -62,6 +63,7 @@ fn main() {
         "mailbox" => mailbox::run(&args),
         "shutdown" => shutdown::run(&args),
         "registry" => registry::run(&args),
+        "life" => life::run(&args),
         "select_listen" => select::listen(&args),
         "select_rws" => select::rws(&args),
         "supervision" => supervision::run(&args),
